@@ -180,7 +180,9 @@ m("c19_translation_check_inverted", "C19", "tdfForce3D.py", "            and tra
 m("c19_isinstance_dropped", "C19", "tdfData3D.py", "        if not (isinstance(volume, np.ndarray) and volume.shape == Volume.btype.shape):", "        if not (np.shape(volume) == Volume.btype.shape):")
 m("c19_seelab_focus_any_len2", "C19", "tdfCalibrationData.py", "        if not isinstance(focus, np.ndarray) or focus.shape != (2,):", "        if not isinstance(focus, np.ndarray) or len(focus) != 2:")
 m("c19_event_single_allows_two", "C19", "tdfEvents.py", "        if len(values) > 1 and type == EventsDataType.singleEvent:", "        if len(values) > 2 and type == EventsDataType.singleEvent:")
-m("c19_viewport_tuple_len", "C19", "tdfTypes.py", "        elif isinstance(size, (list, tuple)):\n            if len(size) != 2:", "        elif isinstance(size, (list, tuple)):\n            if len(size) < 2:")
+m("c19_viewport_tuple_len", "C19", "tdfTypes.py", "        elif isinstance(size, (list, tuple)):\n            if len(size) != 2 or", "        elif isinstance(size, (list, tuple)):\n            if len(size) < 2 or")
+m("c19_viewport_nested_again", "C19", "tdfTypes.py", "            if len(origin) != 2 or any(np.ndim(v) != 0 for v in origin):", "            if len(origin) != 2:")
+m("c16_tracks_setter_lazy_again", "C16", "tdfForce3D.py", "        values = list(values)\n        oldTracks = self._tracks", "        oldTracks = self._tracks")
 m("c19_forcetrack_ndim_only", "C19", "tdfForce3D.py", "            or application_point.shape[1:] != ApplicationPointType.btype.shape", "            or application_point.shape[1] > 3")
 m("c19_calib_rot_size9", "C19", "tdfCalibrationData.py", "        if calibration_volume_rotation_matrix.shape != MAT3X3F.btype.shape:", "        if calibration_volume_rotation_matrix.size != 9:")
 # ---- C20 ---------------------------------------------------------------------------------------
